@@ -78,6 +78,15 @@ func descResult(d ociregistry.Descriptor, err error) string {
 }
 
 func listResult(it ociregistry.Seq[string]) string {
+	first := listResult1(it)
+	// the same sequence value iterated again is another iteration of the same listing
+	if again := listResult1(it); again != first {
+		return first + " again: " + again
+	}
+	return first
+}
+
+func listResult1(it ociregistry.Seq[string]) string {
 	items, err := ociregistry.All(it)
 	if err != nil {
 		if len(items) > 0 {
